@@ -97,6 +97,9 @@ func runCase(c Case) *hx.Failure {
 	if bare.exhausted() {
 		return discard("unspecified.step-budget-exhausted")
 	}
+	if bare.sawCycle() {
+		return discard("known.C06-cyclic-container-print")
+	}
 	if bare.panicked != nil {
 		return finish(bare.panicked, "bare.panic")
 	}
@@ -125,6 +128,9 @@ func runCase(c Case) *hx.Failure {
 	w := exec(wrap(c), c.Budget, false)
 	if w.exhausted() {
 		return discard("unspecified.step-budget-exhausted")
+	}
+	if w.sawCycle() {
+		return discard("known.C06-cyclic-container-print")
 	}
 	if w.panicked != nil {
 		return finish(w.panicked, "wrapped.panic")
